@@ -2712,15 +2712,18 @@ func (d *Document) parseRun(decoder *xml.Decoder, startElement xml.StartElement)
 				}
 			case "t":
 				// 解析文本
-				space := getAttributeValue(t.Attr, "space")
-				run.Text.Space = space
+				// 一个Run里可以有多个 w:t（例如 文字+制表符+文字）：它们的文字依次相接，
+				// 只要其中一个要求保留空白，合并后的文字就保留空白
+				if space := getAttributeValue(t.Attr, "space"); space != "" || run.Text.Content == "" {
+					run.Text.Space = space
+				}
 
 				// 读取文本内容
 				content, err := d.readElementText(decoder, "t")
 				if err != nil {
 					return nil, err
 				}
-				run.Text.Content = content
+				run.Text.Content += content
 			case "drawing":
 				// 解析绘图元素（图片等）
 				drawing, err := d.parseDrawingElement(decoder, t)
